@@ -827,9 +827,19 @@ struct Runner {
     }
     if (removed)
       sx::mark_nontrivial();
-    std::string k = key(&w, m);
-    sx::outcome(sx::hash_str(k));
-    return k;
+    // outcome = the shape of the reference state (live set + multiset of
+    // endpoint pairs).  Deliberately coarser than the key: seqx counts
+    // distinct outcomes in a table of 4M slots, the keys run into millions.
+    {
+      std::vector<PI> shape;
+      for (auto& e : m.es)
+        shape.push_back({e.u, e.v});
+      std::sort(shape.begin(), shape.end());
+      sx::outcome(sx::hash_str(std::to_string(m.st[0] * 9 + m.st[1] * 3 +
+                                              m.st[2]) +
+                               pstr(shape)));
+    }
+    return key(&w, m);
   }
 
   static void add(std::vector<sx::BfsCase>& out, const std::string& comp,
